@@ -135,12 +135,18 @@ class Sym:
         self.choices = []
         self._ci = 0
         self.trace = []
+        self.guards = []
 
     # -- entry points
     def call(self, rel, fname, *args, **kw):
         """Evaluate with all undecidable branches raising NeedChoice -> use paths() for forks."""
         self._ci = 0
-        return self._call(self.repo.func(rel, fname), list(args), dict(kw), 0)
+        try:
+            return self._call(self.repo.func(rel, fname), list(args), dict(kw), 0)
+        except NeedChoice as n:
+            raise Unsupported("undecidable branch `%s` in %s" % (n.text, fname))
+        except PathRaised:
+            raise Unsupported("%s raises on the analysed path" % fname)
 
     def paths(self, rel, fname, *args, **kw):
         """All paths through undecidable tests: list of (choices, value | PathRaised)."""
@@ -211,6 +217,12 @@ class Sym:
             if isinstance(st, ast.Raise):
                 raise PathRaised()
             if isinstance(st, ast.If):
+                if not st.orelse and st.body and isinstance(st.body[-1], ast.Raise) \
+                        and self.static_truth(st.test, env, func, depth) is None:
+                    # a guard that rejects arguments outside the domain: the algebra is about
+                    # the paths that compute a value
+                    self.guards.append(norm(st.test))
+                    continue
                 t = self.truth(st.test, env, func, depth)
                 r = self.block(st.body if t else st.orelse, env, func, depth)
                 if r is not _NORETURN:
@@ -381,6 +393,8 @@ class Sym:
 
     def _callable(self, f):
         def fn(*a, **k):
+            if f.name in self.opaque:
+                return sp.Function(f.name, positive=True)(*[x for x in a if x is not None])
             return self._call(f, list(a), dict(k), 1)
         fn._typhon = f
         return fn
